@@ -1,4 +1,1181 @@
-//! C13 monitor (not written yet).
-pub fn run(_ctx: &crate::ctx::Ctx, report: &mut vcore::Report) {
-    report.notes.push("stub".into());
+//! C13 – the dynamic `Any` value is a lossless carrier of serializable data and of JSON.
+//!
+//! Sub-monitors
+//! * `trees`  – `Node` trees: (1) `Any::new(&v)?.deserialize_into::<Node>() == v` and
+//!   `json(any) ≡ json(v)`; (3) coercion parity on the valid document `D = json(v)`:
+//!   `client_from_str::<Any>(D)?.deserialize_into::<Node>() == v`.
+//! * `wide-pinned` / `wide` – the same two laws for every Rust integer width, f32/f64 (NaN
+//!   included), char, bool, string, binary, unit-only enums, below options / lists / sets / maps
+//!   (as value and as *key*) / tuples / structs / enums / newtypes. `wide-pinned` enumerates every
+//!   leaf type x shape with boundary values, `wide` draws random ones.
+//! * `docs`   – (2) random standard JSON documents (integers within the i64 and u64 ranges, no
+//!   duplicate members) -> `Any` -> JSON must be an equivalent document.
+//!
+//! Error parity on invalid documents is not claimed by the property and not judged.
+use crate::ctx::{guarded, Ctx};
+use crate::node::*;
+use conjure_object::{Any, DoubleKey};
+use conjure_serde::json;
+use serde::de::DeserializeOwned;
+use serde::{Deserialize, Serialize};
+use serde_bytes::ByteBuf;
+use serde_json::json;
+use std::cmp::Ordering;
+use std::collections::{BTreeMap, BTreeSet};
+use std::fmt::Debug;
+use vcore::json::J;
+use vcore::rng::fnv;
+use vcore::text::*;
+use vcore::{Report, Rng};
+
+// ---------------------------------------------------------------------------------------------
+// JSON equivalence (vcore::json::equiv plus exact comparison of integers beyond i128, which the
+// u128 leaf needs; never stricter than vcore's).
+
+fn is_int_text(s: &str) -> bool {
+    let t = s.strip_prefix('-').unwrap_or(s);
+    !t.is_empty() && t.bytes().all(|c| c.is_ascii_digit())
+}
+
+fn jequiv(a: &J, b: &J) -> bool {
+    match (a, b) {
+        (J::Num(x), J::Num(y)) => {
+            if x == y {
+                return true;
+            }
+            if is_int_text(x) && is_int_text(y) {
+                // canonical decimal integers of any size: equal iff same digits (modulo -0)
+                let z = |s: &str| s.trim_start_matches('-').bytes().all(|c| c == b'0');
+                return z(x) && z(y);
+            }
+            vcore::json::equiv(a, b)
+        }
+        (J::Arr(x), J::Arr(y)) => x.len() == y.len() && x.iter().zip(y).all(|(p, q)| jequiv(p, q)),
+        (J::Obj(x), J::Obj(y)) => {
+            x.len() == y.len()
+                && x.iter().all(|(k, v)| {
+                    let mut it = y.iter().filter(|(k2, _)| k2 == k);
+                    match (it.next(), it.next()) {
+                        (Some((_, w)), None) => jequiv(v, w),
+                        _ => false,
+                    }
+                })
+        }
+        _ => a == b,
+    }
+}
+
+// ---------------------------------------------------------------------------------------------
+// Equality used for the "wide" types: structural, NaN equals NaN, other floats by bit pattern.
+
+trait Same {
+    fn same(&self, o: &Self) -> bool;
+}
+
+macro_rules! same_eq {
+    ($($t:ty),*) => {$(
+        impl Same for $t {
+            fn same(&self, o: &Self) -> bool { self == o }
+        }
+    )*};
+}
+same_eq!(i8, i16, i32, i64, i128, u8, u16, u32, u64, u128, char, bool, String, ByteBuf, WK, ());
+
+impl Same for f32 {
+    fn same(&self, o: &Self) -> bool {
+        (self.is_nan() && o.is_nan()) || self.to_bits() == o.to_bits()
+    }
+}
+impl Same for f64 {
+    fn same(&self, o: &Self) -> bool {
+        (self.is_nan() && o.is_nan()) || self.to_bits() == o.to_bits()
+    }
+}
+impl Same for DoubleKey {
+    fn same(&self, o: &Self) -> bool {
+        self.0.same(&o.0)
+    }
+}
+impl Same for F32Key {
+    fn same(&self, o: &Self) -> bool {
+        self.0.same(&o.0)
+    }
+}
+impl<T: Same> Same for Option<T> {
+    fn same(&self, o: &Self) -> bool {
+        match (self, o) {
+            (None, None) => true,
+            (Some(a), Some(b)) => a.same(b),
+            _ => false,
+        }
+    }
+}
+impl<T: Same> Same for Vec<T> {
+    fn same(&self, o: &Self) -> bool {
+        self.len() == o.len() && self.iter().zip(o).all(|(a, b)| a.same(b))
+    }
+}
+impl<T: Same> Same for BTreeSet<T> {
+    fn same(&self, o: &Self) -> bool {
+        self.len() == o.len() && self.iter().zip(o).all(|(a, b)| a.same(b))
+    }
+}
+impl<K: Same, V: Same> Same for BTreeMap<K, V> {
+    fn same(&self, o: &Self) -> bool {
+        self.len() == o.len()
+            && self.iter().zip(o).all(|((a, x), (b, y))| a.same(b) && x.same(y))
+    }
+}
+impl<A: Same, B: Same> Same for (A, B) {
+    fn same(&self, o: &Self) -> bool {
+        self.0.same(&o.0) && self.1.same(&o.1)
+    }
+}
+
+/// f32 usable as a map key: all NaN equal and greatest, +0 == -0 (the Conjure double-key rule).
+#[derive(Serialize, Deserialize, Clone, Copy, Debug)]
+#[serde(transparent)]
+struct F32Key(f32);
+impl PartialEq for F32Key {
+    fn eq(&self, o: &Self) -> bool {
+        self.cmp(o) == Ordering::Equal
+    }
+}
+impl Eq for F32Key {}
+impl PartialOrd for F32Key {
+    fn partial_cmp(&self, o: &Self) -> Option<Ordering> {
+        Some(self.cmp(o))
+    }
+}
+impl Ord for F32Key {
+    fn cmp(&self, o: &Self) -> Ordering {
+        match (self.0.is_nan(), o.0.is_nan()) {
+            (true, true) => Ordering::Equal,
+            (true, false) => Ordering::Greater,
+            (false, true) => Ordering::Less,
+            _ => self.0.partial_cmp(&o.0).unwrap(),
+        }
+    }
+}
+
+/// Unit-only enum through serde's derive (externally tagged: a bare string).
+#[derive(Serialize, Deserialize, Clone, Copy, Debug, PartialEq, Eq, PartialOrd, Ord)]
+enum WK {
+    Alpha,
+    #[serde(rename = "BETA_2")]
+    Beta,
+    #[serde(rename = "g-amma")]
+    Gamma,
+}
+
+#[derive(Serialize, Deserialize, Clone, Debug)]
+struct WS<L> {
+    a: L,
+    #[serde(rename = "b-opt")]
+    b: Option<L>,
+    c: Vec<L>,
+    #[serde(rename = "dMap")]
+    d: BTreeMap<String, L>,
+}
+impl<L: Same> Same for WS<L> {
+    fn same(&self, o: &Self) -> bool {
+        self.a.same(&o.a) && self.b.same(&o.b) && self.c.same(&o.c) && self.d.same(&o.d)
+    }
+}
+
+#[derive(Serialize, Deserialize, Clone, Debug)]
+enum WE<L> {
+    U,
+    N(L),
+    T(L, L),
+    S {
+        x: L,
+        #[serde(rename = "y-opt")]
+        y: Option<L>,
+    },
+}
+impl<L: Same> Same for WE<L> {
+    fn same(&self, o: &Self) -> bool {
+        match (self, o) {
+            (WE::U, WE::U) => true,
+            (WE::N(a), WE::N(b)) => a.same(b),
+            (WE::T(a, b), WE::T(c, d)) => a.same(c) && b.same(d),
+            (WE::S { x, y }, WE::S { x: x2, y: y2 }) => x.same(x2) && y.same(y2),
+            _ => false,
+        }
+    }
+}
+
+#[derive(Serialize, Deserialize, Clone, Debug, PartialEq, Eq, PartialOrd, Ord)]
+struct WN<L>(L);
+impl<L: Same> Same for WN<L> {
+    fn same(&self, o: &Self) -> bool {
+        self.0.same(&o.0)
+    }
+}
+
+// ---------------------------------------------------------------------------------------------
+// Leaves
+
+trait Leaf: Serialize + DeserializeOwned + Same + Debug + Clone {
+    const NAME: &'static str;
+    /// Boundary values, enumerated by `wide-pinned`.
+    fn pinned() -> Vec<Self>;
+    fn gen(r: &mut Rng) -> Self;
+    /// Structural class of a value (distinctness signature).
+    fn class(&self) -> &'static str;
+}
+
+macro_rules! int_leaf {
+    ($t:ty, $name:expr) => {
+        impl Leaf for $t {
+            const NAME: &'static str = $name;
+            #[allow(unused_comparisons)]
+            fn pinned() -> Vec<Self> {
+                let mut v: Vec<$t> = vec![0, 1, <$t>::MIN, <$t>::MAX, <$t>::MAX - 1, <$t>::MAX / 2 + 1];
+                // around the 8/16/32/53/64 bit boundaries of both signs where representable
+                for k in [7u32, 8, 15, 16, 31, 32, 53, 63, 64, 127] {
+                    if k < <$t>::BITS - 1 {
+                        let b: $t = 1 << k;
+                        v.push(b);
+                        v.push(b - 1);
+                        v.push(b + 1);
+                        if <$t>::MIN < 0 {
+                            v.push((0 as $t).wrapping_sub(b));
+                            v.push((0 as $t).wrapping_sub(b).wrapping_sub(1));
+                        }
+                    }
+                }
+                v
+            }
+            fn gen(r: &mut Rng) -> Self {
+                match r.below(6) {
+                    0 => {
+                        let p = Self::pinned();
+                        p[r.below(p.len())]
+                    }
+                    1 => (r.below(200) as i64 - 100) as $t,
+                    2 => {
+                        // a random bit length
+                        let k = r.below(<$t>::BITS as usize) as u32;
+                        (r.u128() as $t) >> k
+                    }
+                    _ => r.u128() as $t,
+                }
+            }
+            #[allow(unused_comparisons)]
+            fn class(&self) -> &'static str {
+                let v = *self as i128;
+                let neg = *self < 0;
+                let mag = if neg { (v as i128).unsigned_abs() } else { *self as u128 };
+                match (neg, mag) {
+                    (_, 0) => "zero",
+                    (false, m) if m <= i32::MAX as u128 => "pos32",
+                    (false, m) if m <= (1 << 53) => "pos53",
+                    (false, m) if m <= i64::MAX as u128 => "pos63",
+                    (false, m) if m <= u64::MAX as u128 => "pos64",
+                    (false, m) if m <= i128::MAX as u128 => "pos127",
+                    (false, _) => "pos128",
+                    (true, m) if m <= 1 << 31 => "neg32",
+                    (true, m) if m <= 1 << 53 => "neg53",
+                    (true, m) if m <= 1 << 63 => "neg63",
+                    (true, _) => "neg127",
+                }
+            }
+        }
+    };
+}
+int_leaf!(i8, "i8");
+int_leaf!(i16, "i16");
+int_leaf!(i32, "i32");
+int_leaf!(i64, "i64");
+int_leaf!(i128, "i128");
+int_leaf!(u8, "u8");
+int_leaf!(u16, "u16");
+int_leaf!(u32, "u32");
+int_leaf!(u64, "u64");
+int_leaf!(u128, "u128");
+
+fn gen_f32(r: &mut Rng) -> f32 {
+    match r.below(12) {
+        0 => f32::NAN,
+        1 => f32::from_bits(0x7fc0_0000 | (r.u64() as u32 & 0x003f_ffff)),
+        2 => f32::from_bits(0xffc0_0000 | (r.u64() as u32 & 0x003f_ffff)),
+        3 => f32::INFINITY,
+        4 => f32::NEG_INFINITY,
+        5 => *r.pick(&[0.0f32, -0.0]),
+        6 => f32::from_bits(r.u64() as u32 & 0x807f_ffff), // subnormal
+        7 => *r.pick(&[f32::MAX, f32::MIN, f32::MIN_POSITIVE, f32::EPSILON, 1e-45, 0.1, 16777217.0]),
+        8 => r.range(-1000, 1000) as f32 / 8.0,
+        9 => r.range(-100000, 100000) as f32 / 1000.0,
+        _ => {
+            let e = r.below(0xff) as u32;
+            f32::from_bits((r.u64() as u32 & 0x807f_ffff) | (e << 23))
+        }
+    }
+}
+
+fn f32_class(v: f32) -> &'static str {
+    if v.is_nan() {
+        if v.to_bits() == f32::NAN.to_bits() {
+            "nan"
+        } else {
+            "nan-payload"
+        }
+    } else if v.is_infinite() {
+        "inf"
+    } else if v == 0.0 {
+        if v.is_sign_negative() {
+            "-0"
+        } else {
+            "+0"
+        }
+    } else if v.is_subnormal() {
+        "subnormal"
+    } else if v.fract() == 0.0 {
+        "integral"
+    } else {
+        "fraction"
+    }
+}
+
+fn f64_class(v: f64) -> &'static str {
+    if v.is_nan() {
+        if v.to_bits() == f64::NAN.to_bits() {
+            "nan"
+        } else {
+            "nan-payload"
+        }
+    } else if v.is_infinite() {
+        "inf"
+    } else if v == 0.0 {
+        if v.is_sign_negative() {
+            "-0"
+        } else {
+            "+0"
+        }
+    } else if v.is_subnormal() {
+        "subnormal"
+    } else if v.fract() == 0.0 {
+        if v.abs() < 9.3e18 {
+            "integral"
+        } else {
+            "integral-big"
+        }
+    } else {
+        "fraction"
+    }
+}
+
+const F32_PINNED: &[f32] = &[
+    0.0,
+    -0.0,
+    1.0,
+    -1.5,
+    0.1,
+    f32::MAX,
+    f32::MIN,
+    f32::MIN_POSITIVE,
+    1e-45,
+    16777216.0,
+    f32::INFINITY,
+    f32::NEG_INFINITY,
+    f32::NAN,
+];
+const F64_PINNED: &[f64] = &[
+    0.0,
+    -0.0,
+    1.0,
+    -1.5,
+    0.1,
+    f64::MAX,
+    f64::MIN,
+    f64::MIN_POSITIVE,
+    5e-324,
+    9007199254740993.0,
+    1e300,
+    f64::INFINITY,
+    f64::NEG_INFINITY,
+    f64::NAN,
+];
+
+impl Leaf for f32 {
+    const NAME: &'static str = "f32";
+    fn pinned() -> Vec<Self> {
+        let mut v = F32_PINNED.to_vec();
+        v.push(f32::from_bits(0xffc0_1234));
+        v
+    }
+    fn gen(r: &mut Rng) -> Self {
+        gen_f32(r)
+    }
+    fn class(&self) -> &'static str {
+        f32_class(*self)
+    }
+}
+impl Leaf for F32Key {
+    const NAME: &'static str = "f32";
+    fn pinned() -> Vec<Self> {
+        f32::pinned().into_iter().map(F32Key).collect()
+    }
+    fn gen(r: &mut Rng) -> Self {
+        F32Key(gen_f32(r))
+    }
+    fn class(&self) -> &'static str {
+        f32_class(self.0)
+    }
+}
+impl Leaf for f64 {
+    const NAME: &'static str = "f64";
+    fn pinned() -> Vec<Self> {
+        let mut v = F64_PINNED.to_vec();
+        v.push(f64::from_bits(0xfff8_0000_0000_1234));
+        v
+    }
+    fn gen(r: &mut Rng) -> Self {
+        hostile_f64(r)
+    }
+    fn class(&self) -> &'static str {
+        f64_class(*self)
+    }
+}
+impl Leaf for DoubleKey {
+    const NAME: &'static str = "f64";
+    fn pinned() -> Vec<Self> {
+        f64::pinned().into_iter().map(DoubleKey).collect()
+    }
+    fn gen(r: &mut Rng) -> Self {
+        DoubleKey(hostile_f64(r))
+    }
+    fn class(&self) -> &'static str {
+        f64_class(self.0)
+    }
+}
+impl Leaf for char {
+    const NAME: &'static str = "char";
+    fn pinned() -> Vec<Self> {
+        vec!['a', '\0', '"', '\\', '\n', '\u{7f}', '\u{80}', 'é', '\u{7ff}', '\u{800}', '€', '\u{ffff}', '\u{10000}', '😀', '\u{10ffff}', '0', '-']
+    }
+    fn gen(r: &mut Rng) -> Self {
+        if r.chance(1, 4) {
+            *r.pick(&Self::pinned())
+        } else {
+            hostile_char(r)
+        }
+    }
+    fn class(&self) -> &'static str {
+        match *self as u32 {
+            0..=0x1f => "control",
+            0x20..=0x7f => "ascii",
+            0x80..=0x7ff => "2byte",
+            0x800..=0xffff => "3byte",
+            _ => "4byte",
+        }
+    }
+}
+impl Leaf for bool {
+    const NAME: &'static str = "bool";
+    fn pinned() -> Vec<Self> {
+        vec![false, true]
+    }
+    fn gen(r: &mut Rng) -> Self {
+        r.bool()
+    }
+    fn class(&self) -> &'static str {
+        if *self {
+            "true"
+        } else {
+            "false"
+        }
+    }
+}
+impl Leaf for String {
+    const NAME: &'static str = "string";
+    fn pinned() -> Vec<Self> {
+        ["", "a", "NaN", "Infinity", "-Infinity", "AA==", "5", "-1", "true", "null", "é😀", "\u{0}\"\\\n", "Alpha", "1.5"]
+            .iter()
+            .map(|s| s.to_string())
+            .collect()
+    }
+    fn gen(r: &mut Rng) -> Self {
+        hostile_string(r, 10)
+    }
+    fn class(&self) -> &'static str {
+        match self.as_str() {
+            "" => "empty",
+            "NaN" | "Infinity" | "-Infinity" => "double-lookalike",
+            "true" | "false" | "null" => "literal-lookalike",
+            s if s.parse::<f64>().is_ok() => "number-lookalike",
+            s if vcore::models::b64_decode(s).is_some() => "base64-lookalike",
+            s if s.is_ascii() => "ascii",
+            _ => "unicode",
+        }
+    }
+}
+impl Leaf for ByteBuf {
+    const NAME: &'static str = "binary";
+    fn pinned() -> Vec<Self> {
+        vec![
+            ByteBuf::new(),
+            ByteBuf::from(vec![0u8]),
+            ByteBuf::from(vec![0xffu8, 0xfe]),
+            ByteBuf::from(vec![0xfbu8, 0xff, 0xbf]),
+            ByteBuf::from(b"NaN".to_vec()),
+            ByteBuf::from((0u8..=255).collect::<Vec<_>>()),
+        ]
+    }
+    fn gen(r: &mut Rng) -> Self {
+        ByteBuf::from(hostile_bytes(r, 24))
+    }
+    fn class(&self) -> &'static str {
+        match self.len() % 3 {
+            _ if self.is_empty() => "empty",
+            0 => "len%3=0",
+            1 => "len%3=1",
+            _ => "len%3=2",
+        }
+    }
+}
+impl Leaf for WK {
+    const NAME: &'static str = "enum";
+    fn pinned() -> Vec<Self> {
+        vec![WK::Alpha, WK::Beta, WK::Gamma]
+    }
+    fn gen(r: &mut Rng) -> Self {
+        *r.pick(&[WK::Alpha, WK::Beta, WK::Gamma])
+    }
+    fn class(&self) -> &'static str {
+        match self {
+            WK::Alpha => "plain",
+            WK::Beta => "renamed",
+            WK::Gamma => "renamed-dash",
+        }
+    }
+}
+
+// ---------------------------------------------------------------------------------------------
+// The two laws on one value of a concrete type
+
+struct Lab<'a> {
+    rep: &'a mut Report,
+    sub: &'a str,
+    seed: u64,
+    /// signature stem: "node" or the leaf name
+    leaf: &'a str,
+    cell: String,
+    shown: String,
+}
+
+impl Lab<'_> {
+    fn fail(&mut self, law: &str, what: &str, info: String) {
+        self.rep.violation(
+            self.sub,
+            self.seed,
+            format!("{}:{}:{}", law, self.leaf, what),
+            json!({"cell": self.cell, "value": self.shown, "what": what, "info": trunc(&info)}),
+        );
+    }
+}
+
+/// What can be said about one value, independent of its type.
+fn laws<T>(
+    lab: &mut Lab,
+    v: &T,
+    same: impl Fn(&T, &T) -> bool,
+    show: impl Fn(&T) -> String,
+    coerce: bool,
+) where
+    T: Serialize + DeserializeOwned,
+{
+    // ---- (1a) value -> Any -> value
+    lab.rep.evaluations += 1;
+    lab.rep.cell(&format!("{}/roundtrip", lab.cell));
+    let any = match guarded(|| Any::new(v)) {
+        Err(p) => return lab.fail("any-roundtrip", "serialize-panic", p),
+        Ok(Err(e)) => return lab.fail("any-roundtrip", "serialize-error", e.to_string()),
+        Ok(Ok(a)) => a,
+    };
+    match guarded(|| any.clone().deserialize_into::<T>()) {
+        Err(p) => lab.fail("any-roundtrip", "deserialize-panic", p),
+        Ok(Err(e)) => lab.fail("any-roundtrip", "deserialize-error", e.to_string()),
+        Ok(Ok(back)) => {
+            if !same(v, &back) {
+                lab.fail("any-roundtrip", "value-mismatch", format!("got {}", show(&back)));
+            }
+        }
+    }
+
+    // ---- (1b) json(any) equivalent to json(v)
+    let direct = match guarded(|| json::to_string(v)) {
+        Ok(Ok(s)) => Some(s),
+        // The value itself has no JSON form (e.g. a map keyed by a tuple): nothing to compare.
+        _ => {
+            lab.rep.observed_only("value-has-no-json-form");
+            None
+        }
+    };
+    if let Some(direct) = &direct {
+        lab.rep.evaluations += 1;
+        lab.rep.cell(&format!("{}/json-eq", lab.cell));
+        match guarded(|| json::to_string(&any)) {
+            Err(p) => lab.fail("any-json", "serialize-panic", p),
+            Ok(Err(e)) => lab.fail("any-json", "serialize-error", e.to_string()),
+            Ok(Ok(via)) => match (vcore::json::parse(direct.as_bytes()), vcore::json::parse(via.as_bytes())) {
+                (Ok(a), Ok(b)) => {
+                    if !jequiv(&a, &b) || matches!(a, J::Str(_)) {
+                        lab.fail("any-json", "not-equivalent", format!("direct {} via any {}", direct, via));
+                    }
+                }
+                (Err(_), _) => lab.rep.observed_only("direct-json-not-standard"),
+                (Ok(_), Err(e)) => lab.fail("any-json", "not-standard-json", format!("{} in {}", e, via)),
+            },
+        }
+    }
+
+    // ---- (3) the valid document D = json(v), viewed through Any, is v again
+    if let (true, Some(doc)) = (coerce, &direct) {
+        // parity is claimed relative to direct parsing: only judged where direct parsing of D
+        // gives v back (that law itself is C01's)
+        match guarded(|| json::client_from_str::<T>(doc)) {
+            Ok(Ok(d)) if same(v, &d) => {}
+            _ => {
+                lab.rep.observed_only("direct-parse-does-not-return-value");
+                return;
+            }
+        }
+        lab.rep.evaluations += 1;
+        lab.rep.cell(&format!("{}/coerce", lab.cell));
+        let parsed = match guarded(|| json::client_from_str::<Any>(doc)) {
+            Err(p) => return lab.fail("any-coerce", "parse-panic", p),
+            Ok(Err(e)) => return lab.fail("any-coerce", "parse-error", format!("{} in {}", e, doc)),
+            Ok(Ok(a)) => a,
+        };
+        match guarded(|| parsed.deserialize_into::<T>()) {
+            Err(p) => lab.fail("any-coerce", "view-panic", p),
+            Ok(Err(e)) => lab.fail("any-coerce", "view-error", format!("{} for {}", e, doc)),
+            Ok(Ok(back)) => {
+                if !same(v, &back) {
+                    lab.fail("any-coerce", "value-mismatch", format!("got {} from {}", show(&back), doc));
+                }
+            }
+        }
+    }
+}
+
+fn check_node(rep: &mut Report, sub: &str, seed: u64, v: &Node) {
+    let mut edges = BTreeSet::new();
+    edges.insert(format!("root>{}", v.kind()));
+    v.edges(&mut edges);
+    for e in &edges {
+        rep.distinct.insert(fnv(&format!("node|{}", e)));
+    }
+    // failure modes get their own signature stem: a tree holding a (non-transparent) newtype
+    // struct in value position is a structural class of its own
+    let has_newtype = edges.iter().any(|e| e.ends_with(">Newtype"));
+    let mut lab = Lab {
+        rep,
+        sub,
+        seed,
+        leaf: if has_newtype { "newtype-struct" } else { "node" },
+        cell: "node".to_string(),
+        shown: trunc(&v.canon()),
+    };
+    laws(&mut lab, v, |a, b| a == b && a.kind() != "Bool", |n| n.canon(), true);
+}
+
+fn check_wide<T>(rep: &mut Report, sub: &str, seed: u64, shape: &str, leaf: &'static str, class: &str, v: &T, coerce: bool)
+where
+    T: Serialize + DeserializeOwned + Same + Debug,
+{
+    rep.distinct.insert(fnv(&format!("wide|{}|{}|{}", shape, leaf, class)));
+    // signature stem = the leaf type, except for the newtype struct in value position, which is
+    // a structural class of its own whatever it wraps
+    let big = leaf == "i128" || leaf == "u128";
+    let stem = match (shape, big) {
+        ("newtype", false) => "newtype-struct".to_string(),
+        ("newtype", true) => format!("{}+newtype-struct", leaf),
+        _ => leaf.to_string(),
+    };
+    let mut lab = Lab {
+        rep,
+        sub,
+        seed,
+        leaf: &stem,
+        cell: format!("wide/{}/{}", shape, leaf),
+        shown: trunc(&format!("{:?}", v)),
+    };
+    laws(&mut lab, v, |a, b| a.same(b), |b| format!("{:?}", b), coerce);
+}
+
+/// Coercion parity is only claimed for documents with integers in the 64-bit range.
+fn coercible<L: Leaf>() -> bool {
+    L::NAME != "i128" && L::NAME != "u128"
+}
+
+/// Every value shape around a leaf type; `next` yields the leaf values to use.
+fn value_shapes<L: Leaf>(rep: &mut Report, sub: &str, seed: u64, r: &mut Rng, next: &mut dyn FnMut(&mut Rng) -> L) {
+    let co = coercible::<L>();
+    macro_rules! go {
+        ($shape:expr, $class:expr, $v:expr) => {{
+            let v = $v;
+            check_wide(rep, sub, seed, $shape, L::NAME, $class, &v, co);
+        }};
+    }
+    let a = next(r);
+    let cls = a.class();
+    go!("bare", cls, a.clone());
+    go!("some", cls, Some(a.clone()));
+    go!("none", "-", None::<L>);
+    let list: Vec<L> = (0..r.below(4)).map(|_| next(r)).collect();
+    go!("list", &format!("len{}", list.len()), list.clone());
+    go!("list-of-option", cls, vec![Some(a.clone()), None, Some(next(r))]);
+    go!("option-of-list", cls, Some(vec![a.clone()]));
+    let m: BTreeMap<String, L> = (0..r.below(4)).map(|_| (hostile_string(r, 6), next(r))).collect();
+    go!("map-value", &format!("len{}", m.len()), m.clone());
+    go!("tuple", cls, (a.clone(), next(r)));
+    go!("newtype", cls, WN(a.clone()));
+    go!(
+        "struct",
+        cls,
+        WS {
+            a: a.clone(),
+            b: if r.bool() { Some(next(r)) } else { None },
+            c: list.clone(),
+            d: m,
+        }
+    );
+    go!("enum-unit", "-", WE::<L>::U);
+    go!("enum-newtype", cls, WE::N(a.clone()));
+    go!("enum-tuple", cls, WE::T(a.clone(), next(r)));
+    go!("enum-struct", cls, WE::S { x: a.clone(), y: if r.bool() { Some(next(r)) } else { None } });
+    go!("list-of-enum", cls, vec![WE::N(a.clone()), WE::U, WE::S { x: next(r), y: None }]);
+    go!("list-of-list", cls, vec![vec![a.clone()], vec![], list]);
+}
+
+/// Every *key* shape around a leaf type usable as a map key / set element.
+fn key_shapes<K: Leaf + Ord>(rep: &mut Report, sub: &str, seed: u64, r: &mut Rng, next: &mut dyn FnMut(&mut Rng) -> K) {
+    let co = coercible::<K>();
+    macro_rules! go {
+        ($shape:expr, $class:expr, $v:expr, $co:expr) => {{
+            let v = $v;
+            check_wide(rep, sub, seed, $shape, K::NAME, $class, &v, $co);
+        }};
+    }
+    let a = next(r);
+    let cls = a.class();
+    let m: BTreeMap<K, String> = std::iter::once((a.clone(), "x".to_string()))
+        .chain((0..r.below(3)).map(|_| (next(r), hostile_string(r, 4))))
+        .collect();
+    go!("map-key", cls, m, co);
+    let m: BTreeMap<WN<K>, Option<K>> = std::iter::once((WN(a.clone()), Some(a.clone())))
+        .chain((0..r.below(3)).map(|_| (WN(next(r)), None)))
+        .collect();
+    go!("map-newtype-key", cls, m, co);
+    let s: BTreeSet<K> = std::iter::once(a.clone()).chain((0..r.below(3)).map(|_| next(r))).collect();
+    go!("set", cls, s, co);
+    let m: BTreeMap<K, BTreeMap<K, Vec<K>>> = std::iter::once((
+        a.clone(),
+        std::iter::once((next(r), vec![a.clone()])).collect::<BTreeMap<_, _>>(),
+    ))
+    .collect();
+    go!("map-of-map", cls, m, co);
+    // a key that is a sequence has no JSON form; only the in-memory round trip is judged
+    let m: BTreeMap<(K, K), K> = std::iter::once(((a.clone(), next(r)), a.clone())).collect();
+    go!("map-tuple-key", cls, m, false);
+}
+
+const N_VALUE_SHAPES: u64 = 16;
+const N_KEY_SHAPES: u64 = 5;
+/// value leaves: 10 ints, f32, f64, char, bool, string, binary, enum
+const N_VALUE_LEAVES: u64 = 17;
+/// key leaves: 10 ints, f32 (F32Key), f64 (DoubleKey), char, bool, string, binary, enum
+const N_KEY_LEAVES: u64 = 17;
+
+/// `pick = None`: every pinned value of the leaf, in turn; `Some(rng)`: random values.
+fn leaf_case(rep: &mut Report, sub: &str, seed: u64, leaf: usize, pinned: bool) {
+    let mut rng = Rng::new(seed);
+    let r = &mut rng;
+    macro_rules! run {
+        ($v:ty, $k:ty) => {{
+            if pinned {
+                let pv = <$v as Leaf>::pinned();
+                for i in 0..pv.len() {
+                    let mut j = i;
+                    value_shapes::<$v>(rep, sub, seed, r, &mut |_r| {
+                        j += 1;
+                        pv[(j - 1) % pv.len()].clone()
+                    });
+                }
+                let pk = <$k as Leaf>::pinned();
+                for i in 0..pk.len() {
+                    let mut j = i;
+                    key_shapes::<$k>(rep, sub, seed, r, &mut |_r| {
+                        j += 1;
+                        pk[(j - 1) % pk.len()].clone()
+                    });
+                }
+            } else {
+                value_shapes::<$v>(rep, sub, seed, r, &mut |r| <$v as Leaf>::gen(r));
+                key_shapes::<$k>(rep, sub, seed, r, &mut |r| <$k as Leaf>::gen(r));
+            }
+        }};
+    }
+    match leaf {
+        0 => run!(i8, i8),
+        1 => run!(i16, i16),
+        2 => run!(i32, i32),
+        3 => run!(i64, i64),
+        4 => run!(i128, i128),
+        5 => run!(u8, u8),
+        6 => run!(u16, u16),
+        7 => run!(u32, u32),
+        8 => run!(u64, u64),
+        9 => run!(u128, u128),
+        10 => run!(f32, F32Key),
+        11 => run!(f64, DoubleKey),
+        12 => run!(char, char),
+        13 => run!(bool, bool),
+        14 => run!(String, String),
+        15 => run!(ByteBuf, ByteBuf),
+        _ => run!(WK, WK),
+    }
+}
+const N_LEAVES: usize = 17;
+
+// ---------------------------------------------------------------------------------------------
+// (2) random JSON documents
+
+struct DocGen<'a> {
+    r: &'a mut Rng,
+    classes: BTreeSet<String>,
+}
+
+impl DocGen<'_> {
+    fn number(&mut self) -> (J, &'static str) {
+        let r = &mut *self.r;
+        match r.below(12) {
+            0 => (J::Num(r.range(-1000, 1000).to_string()), "int-small"),
+            1 | 2 => {
+                let v = hostile_i64(r);
+                (J::Num(v.to_string()), if v < 0 { "int-neg64" } else { "int-pos63" })
+            }
+            3 => {
+                // above i64::MAX, within u64
+                let v = match r.below(3) {
+                    0 => u64::MAX,
+                    1 => (1u64 << 63) + r.below(3) as u64,
+                    _ => (1u64 << 63) | r.u64(),
+                };
+                (J::Num(v.to_string()), "int-pos64")
+            }
+            4 => (J::Num("-0".into()), "neg-zero-int"),
+            5 => {
+                let f = finite(r);
+                (J::Num(format!("{:?}", f)), "float-shortest")
+            }
+            6 => {
+                let f = finite(r);
+                let mut s = format!("{:e}", f);
+                if r.bool() {
+                    s = s.replace('e', "E");
+                }
+                if r.bool() && !s.contains("e-") && !s.contains("E-") {
+                    s = s.replace('e', "e+").replace('E', "E+");
+                }
+                (J::Num(s), "float-exp")
+            }
+            7 => {
+                // integral value written as a float
+                let v = r.range(-100000, 100000);
+                let zeros = "0".repeat(1 + r.below(3));
+                (J::Num(format!("{}.{}", v, zeros)), "float-integral")
+            }
+            8 => {
+                let v = r.range(-100000, 100000) as f64 / 1000.0;
+                (J::Num(format!("{:?}0", v)), "float-trailing-zero")
+            }
+            9 => (J::Num((*r.pick(&["-0.0", "0.0", "0e0", "-0e-5", "0.000"])).to_string()), "float-zero"),
+            10 => {
+                // 1e-320 ..= 9e307 and 1e308: all within the range of a double
+                let e = r.range(-320, 308);
+                let m = if e == 308 { 1 } else { 1 + r.below(9) };
+                (J::Num(format!("{}e{}", m, e)), "float-pow10")
+            }
+            _ => {
+                let v = r.range(-(1i64 << 53), 1i64 << 53);
+                (J::Num(v.to_string()), "int-safe")
+            }
+        }
+    }
+
+    fn string(&mut self) -> (String, &'static str) {
+        let s = hostile_string(self.r, 12);
+        let c = <String as Leaf>::class(&s);
+        (s, c)
+    }
+
+    fn value(&mut self, depth: usize, parent: &str) -> J {
+        let r = &mut *self.r;
+        let leaf = depth == 0 || r.chance(2, 5);
+        let (j, class): (J, String) = if leaf {
+            match r.below(8) {
+                0 => (J::Null, "null".into()),
+                1 => (J::Bool(r.bool()), "bool".into()),
+                2..=4 => {
+                    let (j, c) = self.number();
+                    (j, c.into())
+                }
+                5 | 6 => {
+                    let (s, c) = self.string();
+                    (J::Str(s), format!("str-{}", c))
+                }
+                _ => {
+                    if r.bool() {
+                        (J::Arr(vec![]), "arr-empty".into())
+                    } else {
+                        (J::Obj(vec![]), "obj-empty".into())
+                    }
+                }
+            }
+        } else if r.bool() {
+            let n = 1 + r.below(4);
+            (J::Arr((0..n).map(|_| self.value(depth - 1, "arr")).collect()), "arr".into())
+        } else {
+            let n = 1 + self.r.below(4);
+            let mut members: Vec<(String, J)> = vec![];
+            for _ in 0..n {
+                let (k, kc) = self.string();
+                if members.iter().any(|(k2, _)| *k2 == k) {
+                    continue; // no duplicate member names
+                }
+                self.classes.insert(format!("key-{}", kc));
+                let v = self.value(depth - 1, "obj");
+                members.push((k, v));
+            }
+            (J::Obj(members), "obj".into())
+        };
+        self.classes.insert(format!("{}>{}", parent, class));
+        j
+    }
+}
+
+fn finite(r: &mut Rng) -> f64 {
+    loop {
+        let f = hostile_f64(r);
+        if f.is_finite() {
+            return f;
+        }
+    }
+}
+
+/// Renders with random (legal) whitespace and escape spellings.
+fn render_doc(j: &J, r: &mut Rng, out: &mut String) {
+    fn ws(r: &mut Rng, out: &mut String) {
+        if r.chance(1, 6) {
+            out.push(*r.pick(&[' ', '\n', '\t', '\r']));
+        }
+    }
+    fn quote(s: &str, r: &mut Rng, out: &mut String) {
+        out.push('"');
+        let style = r.below(4); // 0,1: minimal; 2: escape non-ASCII; 3: escape a lot
+        for c in s.chars() {
+            let cp = c as u32;
+            let must = cp < 0x20 || c == '"' || c == '\\';
+            let want = must || (style >= 2 && cp >= 0x80) || (style == 3 && r.chance(1, 3));
+            if !want {
+                out.push(c);
+                continue;
+            }
+            let short = match c {
+                '"' => Some("\\\""),
+                '\\' => Some("\\\\"),
+                '\n' => Some("\\n"),
+                '\r' => Some("\\r"),
+                '\t' => Some("\\t"),
+                '\u{8}' => Some("\\b"),
+                '\u{c}' => Some("\\f"),
+                '/' => Some("\\/"),
+                _ => None,
+            };
+            match short {
+                Some(e) if must && matches!(c, '"' | '\\') => out.push_str(e),
+                Some(e) if r.bool() => out.push_str(e),
+                _ => {
+                    let mut buf = [0u16; 2];
+                    let upper = r.bool();
+                    for u in c.encode_utf16(&mut buf) {
+                        if upper {
+                            out.push_str(&format!("\\u{:04X}", u));
+                        } else {
+                            out.push_str(&format!("\\u{:04x}", u));
+                        }
+                    }
+                }
+            }
+        }
+        out.push('"');
+    }
+    match j {
+        J::Null => out.push_str("null"),
+        J::Bool(b) => out.push_str(if *b { "true" } else { "false" }),
+        J::Num(n) => out.push_str(n),
+        J::Str(s) => quote(s, r, out),
+        J::Arr(v) => {
+            out.push('[');
+            ws(r, out);
+            for (i, x) in v.iter().enumerate() {
+                if i > 0 {
+                    out.push(',');
+                    ws(r, out);
+                }
+                render_doc(x, r, out);
+                ws(r, out);
+            }
+            out.push(']');
+        }
+        J::Obj(v) => {
+            out.push('{');
+            ws(r, out);
+            for (i, (k, x)) in v.iter().enumerate() {
+                if i > 0 {
+                    out.push(',');
+                    ws(r, out);
+                }
+                quote(k, r, out);
+                ws(r, out);
+                out.push(':');
+                ws(r, out);
+                render_doc(x, r, out);
+                ws(r, out);
+            }
+            out.push('}');
+        }
+    }
+}
+
+fn doc_case(rep: &mut Report, sub: &str, seed: u64, max_depth: usize) {
+    let mut rng = Rng::new(seed);
+    let depth = rng.below(max_depth + 1);
+    let (doc, classes) = {
+        let mut g = DocGen { r: &mut rng, classes: BTreeSet::new() };
+        let d = g.value(depth, "root");
+        (d, g.classes)
+    };
+    let mut text = String::new();
+    if rng.chance(1, 8) {
+        text.push(' ');
+    }
+    render_doc(&doc, &mut rng, &mut text);
+    if rng.chance(1, 8) {
+        text.push('\n');
+    }
+    // the generator's own contract: the text is standard JSON for exactly `doc`
+    match vcore::json::parse(text.as_bytes()) {
+        Ok(p) if p == doc => {}
+        other => {
+            rep.violation(sub, seed, "harness:doc-generator", json!({"text": trunc(&text), "parsed": trunc(&format!("{:?}", other))}));
+            return;
+        }
+    }
+    for c in &classes {
+        rep.distinct.insert(fnv(&format!("doc|{}", c)));
+        rep.cell(&format!("doc-class/{}", c));
+    }
+    rep.sample(2, || json!({"sub": sub, "case_seed": seed, "document": trunc(&text)}));
+    type Parse = fn(&str) -> Result<Any, String>;
+    let routes: [(&str, Parse); 2] = [
+        ("client", |s| json::client_from_str::<Any>(s).map_err(|e| e.to_string())),
+        ("server", |s| json::server_from_str::<Any>(s).map_err(|e| e.to_string())),
+    ];
+    for (route, parse) in routes {
+        rep.evaluations += 1;
+        rep.cell(&format!("doc/{}", route));
+        let fail = |rep: &mut Report, what: &str, info: String| {
+            rep.violation(
+                sub,
+                seed,
+                format!("any-doc:{}:{}", route, what),
+                json!({"document": trunc(&text), "what": what, "info": trunc(&info)}),
+            );
+        };
+        let any = match guarded(|| parse(&text)) {
+            Err(p) => {
+                fail(rep, "parse-panic", p);
+                continue;
+            }
+            Ok(Err(e)) => {
+                fail(rep, "parse-error", e);
+                continue;
+            }
+            Ok(Ok(a)) => a,
+        };
+        match guarded(|| json::to_string(&any)) {
+            Err(p) => fail(rep, "serialize-panic", p),
+            Ok(Err(e)) => fail(rep, "serialize-error", e.to_string()),
+            Ok(Ok(out)) => match vcore::json::parse(out.as_bytes()) {
+                Err(e) => fail(rep, "not-standard-json", format!("{} in {}", e, out)),
+                Ok(back) => {
+                    if !jequiv(&doc, &back) || matches!(doc, J::Arr(_)) {
+                        fail(rep, "not-equivalent", format!("re-serialized as {}", out));
+                    }
+                }
+            },
+        }
+    }
+}
+
+pub fn run(ctx: &Ctx, report: &mut Report) {
+    let depth = if ctx.thorough { 8 } else { 6 };
+
+    ctx.fixed(report, "wide-pinned", |rep| {
+        // case_seed = leaf index; in replay mode only that leaf runs
+        let only = ctx.replay.as_ref().map(|(_, s)| *s as usize);
+        for leaf in 0..N_LEAVES {
+            if only.map(|o| o == leaf).unwrap_or(true) {
+                leaf_case(rep, "wide-pinned", leaf as u64, leaf, true);
+            }
+        }
+    });
+
+    ctx.cases(report, "wide", ctx.n(12_000, 600_000), |seed, rep| {
+        let leaf = Rng::new(seed ^ 0x5eed).below(N_LEAVES);
+        leaf_case(rep, "wide", seed, leaf, false);
+    });
+
+    ctx.cases(report, "trees", ctx.n(50_000, 2_500_000), |seed, rep| {
+        let mut r = Rng::new(seed);
+        let d = 1 + r.below(depth);
+        let n = gen_node(&mut r, d);
+        rep.sample(2, || json!({"sub": "trees", "case_seed": seed, "value": trunc(&n.canon())}));
+        check_node(rep, "trees", seed, &n);
+    });
+
+    ctx.cases(report, "docs", ctx.n(50_000, 2_500_000), |seed, rep| {
+        doc_case(rep, "docs", seed, depth);
+    });
+
+    if ctx.replay.is_none() {
+        // enumerated: every leaf type x shape, each with the round trip law; the JSON law everywhere
+        // but below a tuple key; the coercion law for all leaves but the two 128-bit ones
+        let shapes = N_VALUE_LEAVES * N_VALUE_SHAPES + N_KEY_LEAVES * N_KEY_SHAPES;
+        let cells = |suffix: &str| {
+            report.matrix.keys().filter(|k| k.starts_with("wide/") && k.ends_with(suffix)).count() as u64
+        };
+        let (rt, je, co) = (cells("/roundtrip"), cells("/json-eq"), cells("/coerce"));
+        report.floor("wide-roundtrip-cells", shapes, rt);
+        report.floor("wide-json-cells", shapes - N_KEY_LEAVES, je);
+        report.floor("wide-coerce-cells", (N_VALUE_LEAVES - 2) * N_VALUE_SHAPES + (N_KEY_LEAVES - 2) * (N_KEY_SHAPES - 1), co);
+        report.floor_cells("node-cells", "node/", 3);
+        report.floor_cells("doc-routes", "doc/", 2);
+        let full = ctx.scale >= 1.0;
+        report.floor_cells("doc-classes", "doc-class/", if full { 60 } else { 30 });
+        let d = report.distinct.len() as u64;
+        report.floor("distinct-classes", if full { 2500 } else { 800 }, d);
+    }
+    report.notes.push(
+        "distinct = node parent>child edges + (shape, leaf type, value class) of wide values + document (parent>class) edges".into(),
+    );
+    report.notes.push(
+        "signatures: any-roundtrip|any-json|any-coerce:<leaf type or node>:<what>, any-doc:<client|server>:<what>".into(),
+    );
 }
